@@ -43,7 +43,7 @@ META = dict(
               'canonical-form equality of normalize / bg_correct with their '
               'defining formulas, axis-swap symmetry of zero_filter, weight typing '
               'of make_center_priors, Welford recurrence check'
-              "; truth table of bg_correct's refusals over its agreement tests (shape, pixel size without absolute tolerance, axis names, channel labels); per-operand pairing analysis over image views; detrend axes by name",
+              "; truth table of bg_correct's refusals over its agreement tests (shape, pixel size without absolute tolerance, axis names, channel labels); per-operand pairing analysis over image views; detrend axes by name; rank reductions between the image and the centre vote are by axis name (no positional subscript); image differences of the background correction have a floating-point operand",
     level_text='Static: T1-T7 decide the defining identities that are visible in the '
                'expression each tool computes (for all images).  Library-dependent '
                'behaviour (xarray interpolation, Hough accuracy) is not decided; '
